@@ -37,8 +37,9 @@ FILES = {
 
 def common_rules(prog, prop):
     """-> (list of RuleResult, list of undecided-rule lines)"""
-    from . import oneshot
+    from . import oneshot, defaults
     T = Attempts()
     files = FILES.get(prop)
-    res = T.results(T(oneshot.rule, prog, prop, files))
+    res = T.results(T(oneshot.rule, prog, prop, files),
+                    T(defaults.rule, prog, prop, files))
     return res, T.extra().get('undecided_rules', [])
